@@ -73,6 +73,12 @@ PROGRAMS = {
     # the two guards of the SO / read-only-session exclusion race each other
     "Lz": [("open",), ("loginso", "SO"), ("sessinfo",), ("close",)],
     "Ly": [("openro",), ("sessinfo",), ("close",)],
+    # a shared public TOKEN key: one thread's change is refused at the last entry of a long template, the other one's is valid
+    "Lt": [("open",), ("tbadset", "A"), ("tget",), ("close",)],
+    "Lw": [("open",), ("tset", "B"), ("tget",), ("close",)],
+    # (the same without the reads in between: what counts is the state afterwards)
+    "Lt2": [("open",), ("tbadset", "A"), ("tbadset", "A"), ("close",)],
+    "Lw2": [("open",), ("tset", "B"), ("close",)],
     "Ls": [("open",), ("mksens",), ("badset",), ("badset",), ("close",)],
     "Lg": [("open",), ("readsens",), ("readsens",), ("readsens",), ("close",)],
 }
@@ -82,7 +88,7 @@ PINS = {"P0": b"conc-user-pin", "P1": b"conc-pin-one", "P2": b"conc-pin-two2", "
 
 
 def shared_family(progs):
-    return any(len(c) > 0 and c[0] in ("login", "logout", "setpin", "createpriv", "unwrappriv", "mksens", "badset", "readsens", "loginso", "openro") for pr in progs for c in pr)
+    return any(len(c) > 0 and c[0] in ("login", "logout", "setpin", "createpriv", "unwrappriv", "mksens", "badset", "readsens", "loginso", "openro", "tset", "tbadset", "tget") for pr in progs for c in pr)
 
 
 def conf(wd):
@@ -125,6 +131,10 @@ def prepare(lib, wd, shared=False):
     rv2, x = p.create_object(s, [(K.CKA_CLASS, K.CKO_SECRET_KEY), (K.CKA_KEY_TYPE, K.CKK_GENERIC_SECRET), (K.CKA_TOKEN, False),
                                  (K.CKA_PRIVATE, False), (K.CKA_VALUE, UNWRAPPED_SECRET), (K.CKA_EXTRACTABLE, True)])
     rv3, blob, n = p.wrap_key(s, Mech(K.CKM_AES_KEY_WRAP), wk, x)
+    # the shared public token key of the tset / tbadset / tget calls (an AES key is not counted by the final key census)
+    rv4, tk = p.create_object(s, [(K.CKA_CLASS, K.CKO_SECRET_KEY), (K.CKA_KEY_TYPE, K.CKK_AES), (K.CKA_TOKEN, True),
+                                  (K.CKA_PRIVATE, False), (K.CKA_ID, b"tk"), (K.CKA_LABEL, b"orig"), (K.CKA_VALUE, bytes(16))])
+    assert rv4 == 0, rv4
     assert not (rv or rv2 or rv3), (rv, rv2, rv3)
     with open(os.path.join(wd, "blob.bin"), "wb") as f:
         f.write(blob)
@@ -332,11 +342,11 @@ class Run(object):
                 ev = dict(e="Inv", t=t, c=c, o=o)
                 if c == "create":
                     ev["tok"] = call[2] == "tok"
-                if c in ("login", "setpin", "loginso"):
+                if c in ("login", "setpin", "loginso", "tset", "tbadset"):
                     ev.update(o=0, a=call[1], b=call[2] if len(call) > 2 else "")
                 self.log(ev)
                 r = dict(e="Ret", t=t, c=c, o=o)
-                if c in ("login", "setpin", "loginso"):
+                if c in ("login", "setpin", "loginso", "tset", "tbadset"):
                     r["o"] = 0
                 if c == "login":
                     rv = p.login(s, K.CKU_USER, PINS[call[1]])
@@ -357,6 +367,25 @@ class Run(object):
                     # (no byte-string attribute: nothing to encrypt, the answer depends on the login state alone)
                     rv, g = p.create_object(s, [(K.CKA_CLASS, K.CKO_DATA), (K.CKA_TOKEN, False), (K.CKA_PRIVATE, True)])
                     r.update(rv=rvname(rv))
+                elif c in ("tset", "tbadset", "tget"):
+                    rvf, hs = p.find(s, [(K.CKA_ID, b"tk")])
+                    g = hs[0] if hs else 0
+                    if not hs:
+                        r.update(rv="LOST")           # there is no such key (any more)
+                    elif c == "tget":
+                        rv, d = p.get_attrs(s, g, [K.CKA_LABEL])
+                        lab = (d.get(K.CKA_LABEL) or b"").decode("latin-1") if rv == 0 else ""
+                        r.update(rv=rvname(rv), st=lab if lab in ("orig", "A", "B") else "?" + lab[:8])
+                    elif c == "tset":
+                        rv = p.set_attrs(s, g, [(K.CKA_LABEL, call[1].encode())])
+                        r.update(rv=rvname(rv))
+                    else:
+                        # many entries, the last one is refused (CKA_LOCAL is read-only): nothing of the template may stay
+                        tm = []
+                        for i in range(10):
+                            tm += [(K.CKA_LABEL, call[1].encode()), (K.CKA_DERIVE, i % 2 == 0)]
+                        rv = p.set_attrs(s, g, tm + [(K.CKA_LOCAL, True)])
+                        r.update(rv=rvname(rv))
                 elif c == "mksens":
                     rvf, hs = p.find(s, [(K.CKA_ID, b"sk")])
                     if hs:
@@ -632,8 +661,17 @@ def execute(lib, p, sched, wd, template, progs, mode, schedule, em, b):
         p.finalize()
         from . import tokdec
         plain = len(tokdec.contains_plaintext(tok, [UNWRAPPED_SECRET]))
+        # the shared token key after the restart: the label a new library instance reads
+        lab = "n/a"
+        if p.initialize() == 0:
+            r4, s4 = p.open_session(the_slot(p), True)
+            r5, hs = p.find(s4, [(K.CKA_ID, b"tk")])
+            if r5 == 0 and hs:
+                r6, d6 = p.get_attrs(s4, hs[0], [K.CKA_LABEL])
+                lab = (d6.get(K.CKA_LABEL) or b"").decode("latin-1") if r6 == 0 else "?" + rvname(r6)
+            p.finalize()
         em.emit(dict(e="Final", st=p11.statename(si["state"]) if rv == 0 else "", pin=good[0] if len(good) == 1 else "?",
-                     nkeys=nkeys, bad=bad, plain=plain))
+                     nkeys=nkeys, bad=bad, plain=plain, lab=lab))
         return points
     # what is left afterwards (main thread, sequential)
     rv, hs = p.find(base, [(K.CKA_CLASS, K.CKO_SECRET_KEY)])
